@@ -61,7 +61,9 @@ def _kind(ctx, expr, fi, depth=0):
         kinds = set()
         for sc in scopes:
             facts = Facts(sc, include_nested=False)
-            for v in facts.values_of(nm):
+            # (for a plain local: what the name itself is bound to, not what is stored into parts of the object it names)
+            direct = list(facts.assigns.get(nm, [])) if not nm.startswith('self.') else []
+            for v in (direct or facts.values_of(nm)):
                 if nm.startswith('self.') and isinstance(v, ast.Constant) and v.value is None:
                     continue
                 # tuple unpacking: `a, b = self.load_source` -> element of a user-supplied (descriptor, iterators) pair
